@@ -9,7 +9,8 @@
 // resolve, rwr), 0-based; `return k`/`released k` refer to the k-th entry of the resolver function;
 // `cbreturn j n` to the n-th callback entry of the j-th access step; ctx ids are 1..3 (0 = nil).
 //
-//	config keep ctx tgt   first line: keepUnref 0|1, initial ctx id, target containers given 0|1
+//	config keep ctx tgt   first line: keepUnref 0|1, initial ctx id, containers given: 0 neither, 1 both,
+//	                      2 only target, 3 only targetErr ("ctx, target and targetErr can be empty")
 //	addref nil|quiet|rec  AddRef with a nil / silent / recording callback
 //	release i             Release() of reference i (skipped unless that call returned a reference)
 //	setctx c | clearctx   SetContext(ctx c) / ClearContext()
@@ -27,6 +28,8 @@
 //	cbreturn j n e        the n-th callback entry of access step j returns error id e
 //	cancelcall j          cancel the caller context of consumer step j (access / wait / resolve / rwr)
 //	wait | resolve        Wait(ctx) / Resolve(ctx)
+//	addrefpromise         AddRefPromise() as a step of its own; the promise is read (non-blocking) at every
+//	                      quiescence point: `probe promise a has v e`
 //	rwr 0|1               ResolveWithReleased(ctx, released) (released callback given 0|1)
 package refcount
 
@@ -42,6 +45,7 @@ import (
 	"time"
 
 	"github.com/aperturerobotics/util/ccontainer"
+	"github.com/aperturerobotics/util/promise"
 	"github.com/aperturerobotics/util/refcount"
 
 	"verifharness/comp"
@@ -129,6 +133,8 @@ type consumer struct {
 	cancel context.CancelFunc
 	mu     sync.Mutex
 	cbs    []*accessCb
+	prom   *promise.PromiseContainer[int] // addrefpromise: the promise it returned
+	pref   *refcount.Ref[int]             // addrefpromise: the reference it returned (kept until the end)
 }
 
 type world struct {
@@ -253,11 +259,14 @@ func exec(consumers bool) func(script []string, opt comp.Options) comp.Result {
 				keep, ctx0, tgt = atoi(f[1]), atoi(f[2])%4, atoi(f[3])
 			}
 		}
-		if tgt != 0 {
+		tgt %= 4
+		if tgt == 1 || tgt == 2 {
 			w.tgt = ccontainer.NewCContainer[int](0)
+		}
+		if tgt == 1 || tgt == 3 {
 			w.terr = ccontainer.NewCContainer[*error](nil)
 		}
-		log.Add("cfg %d %d %d", keep, ctx0, b2i(tgt != 0))
+		log.Add("cfg %d %d %d", keep, ctx0, tgt)
 		w.rc = refcount.NewRefCount[int](w.ctxs[ctx0], keep != 0, w.tgt, w.terr, w.resolver)
 
 		var refs []*refHolder
@@ -364,8 +373,13 @@ func exec(consumers bool) func(script []string, opt comp.Options) comp.Result {
 				if f[2] == "v" {
 					val = e.k + 1
 				}
+				// resolver errors: 1..3 plain errors, 9 = context.Canceled itself (not the caller's context)
+				rerr := atoi(f[4])
+				if rerr != 9 {
+					rerr %= 4
+				}
 				select {
-				case e.retCh <- resRet{val: val, hasRel: f[3] == "1", err: atoi(f[4]) % 4}:
+				case e.retCh <- resRet{val: val, hasRel: f[3] == "1", err: rerr}:
 				default: // already told to return
 				}
 			case "released":
@@ -412,12 +426,15 @@ func exec(consumers bool) func(script []string, opt comp.Options) comp.Result {
 				pv, pe := 0, 0
 				if w.tgt != nil {
 					pv = w.tgt.GetValue()
+				}
+				if w.terr != nil {
 					if ep := w.terr.GetValue(); ep != nil {
 						pe = errID(*ep)
 					}
 				}
 				log.Add("probe %d %d", pv, pe)
 				w.probeAccess(cons)
+				w.probePromise(cons)
 				log.Quiesce()
 			default:
 				if consumers {
@@ -514,7 +531,7 @@ func genBase(rng *rand.Rand, tier string) []string {
 	if tier == "thorough" {
 		steps = 20 + rng.Intn(40)
 	}
-	out := []string{fmt.Sprintf("config %d %d %d", rng.Intn(2), []int{1, 1, 1, 0}[rng.Intn(4)], []int{1, 1, 1, 1, 0}[rng.Intn(5)])}
+	out := []string{fmt.Sprintf("config %d %d %d", rng.Intn(2), []int{1, 1, 1, 0}[rng.Intn(4)], []int{1, 1, 1, 1, 0, 2, 3}[rng.Intn(7)])}
 	nrefs, nent := 0, 0 // nent: upper bound on the number of resolver entries so far
 	kinds := []string{"rec", "rec", "rec", "quiet", "nil"}
 	pfx := func() string {
@@ -546,7 +563,7 @@ func genBase(rng *rand.Rand, tier string) []string {
 			}
 			e := 0
 			if rng.Intn(5) == 0 {
-				e = 1 + rng.Intn(3)
+				e = []int{1, 2, 3, 9}[rng.Intn(4)]
 			}
 			out = append(out, fmt.Sprintf("return %d %s %d %d", rng.Intn(nent), v, b2i(rng.Intn(6) != 0), e))
 		case r < 80 && nent > 0:
@@ -582,6 +599,11 @@ func init() {
 	comp.Register(&comp.Component{
 		Name: "refcount", Model: "refcount", Gen: genBase, Exec: exec(false),
 		Corpus: [][]string{
+			// only one of the two containers is given (seed C09-c2): an errored result is dropped by the
+			// release of the last reference / by released() / by SetContext; the container that is given
+			// follows, the nil one is never touched
+			{"config 0 1 2", "addref rec", "return 0 0 1 1", "settle", "release 0", "quiesce", "addref rec", "return 1 v 1 2", "settle", "released 1", "quiesce", "return 2 v 1 0", "quiesce", "setctx 2", "quiesce"},
+			{"config 0 1 3", "addref rec", "return 0 0 1 1", "settle", "released 0", "quiesce", "return 1 v 1 2", "quiesce", "setctx 2", "quiesce", "return 2 v 1 0", "quiesce", "release 0", "quiesce"},
 			// several restarts inside one resolver's return latency (D2): the resolve goroutine of
 			// entry 0 is held before its final critical section while restarts pile up behind it
 			{"config 0 1 1", "gate lock-enter 2", "addref rec", "+return 0 v 1 0", "settle", "setctx 2", "released 0", "released 0", "setctx 3", "settle", "opengate 0", "quiesce", "return 1 v 1 0", "quiesce", "release 0", "quiesce"},
